@@ -1209,10 +1209,11 @@ fn first_step_rejected_then_success() -> Option<String> {
 fn teval_backward_endpoints() -> Option<String> {
     struct Osc; impl IVP for Osc { fn ode(&self, _t: f64, y: &[f64], d: &mut [f64]) { d[0] = y[1]; d[1] = -y[0]; } }
     for m in [Method::RK4, Method::RK23, Method::DOPRI5, Method::DOP853, Method::RADAU, Method::BDF] {
-        for &(x0, xe) in &[(2.0f64, 0.0f64), (0.0, 2.0), (1.5, -3.0), (-1.0, 4.0)] {
-            let grids: Vec<Vec<f64>> = vec![(0..=8).map(|i| x0 + (xe - x0) * i as f64 / 8.0).collect(), vec![xe], vec![x0], vec![x0, xe], (1..=40).map(|i| x0 + (xe - x0) * i as f64 / 40.0).collect()];
+        for &(x0, xe) in &[(2.0f64, 0.0f64), (0.0, 2.0), (1.5, -3.0), (-1.0, 4.0), (0.1 + 0.2, 0.0)] {
+            let grids: Vec<Vec<f64>> = vec![vec![0.3, 0.2, 0.1, 0.0].into_iter().filter(|_| x0 == 0.1 + 0.2).collect(), (0..=8).map(|i| x0 + (xe - x0) * i as f64 / 8.0).collect(), vec![xe], vec![x0], vec![x0, xe], (1..=40).map(|i| x0 + (xe - x0) * i as f64 / 40.0).collect()];
             for te in grids {
                 for dense in [false, true] {
+                    if te.is_empty() { continue; }
                     let s = match solve_ivp(&Osc, x0, xe, &[1.0, 0.0], Options::builder().method(m.clone()).t_eval(te.clone()).dense_output(dense).build()) { Ok(s) => s, Err(e) => return Some(format!("{:?}: t_eval {:?} on [{}, {}]: {:?}", m, te, x0, xe, e)) };
                     if s.status != Status::Success || s.t != te || s.y.len() != te.len() {
                         return Some(format!("{:?} on [{}, {}] (dense_output {}): requested {} times ending with {:?}, status {:?}, reported {} times ending with {:?}", m, x0, xe, dense, te.len(), te.last(), s.status, s.t.len(), s.t.last()));
@@ -1498,6 +1499,20 @@ fn sol_many_range() -> Option<String> {
     None
 }
 
+/// C18: naccpt is the number of reported intervals when no output filtering is requested (also when steps are rejected early), nstep >= naccpt
+fn naccpt_equals_intervals() -> Option<String> {
+    struct Osc; impl IVP for Osc { fn ode(&self, t: f64, _y: &[f64], d: &mut [f64]) { d[0] = 0.01 + 100.0 * (50.0 * t).sin().powi(2); } }
+    for m in [Method::RK4, Method::RK23, Method::DOPRI5, Method::DOP853, Method::RADAU, Method::BDF] {
+        for &(x0, xe) in &[(0.0f64, 1.0f64), (1.0, 0.0)] {
+            let s = match solve_ivp(&Osc, x0, xe, &[1.0], Options::builder().method(m.clone()).rtol(1e-3).atol(1e-6).build()) { Ok(s) => s, Err(e) => return Some(format!("{:?}: {:?}", m, e)) };
+            if s.naccpt + 1 != s.t.len() || s.nstep < s.naccpt {
+                return Some(format!("{:?}: y' = 0.01 + 100 sin^2(50 t) on [{}, {}]: naccpt = {}, nstep = {}, nrejct = {}, {} reported intervals", m, x0, xe, s.naccpt, s.nstep, s.nrejct, s.t.len() - 1));
+            }
+        }
+    }
+    None
+}
+
 fn main() {
     let which = std::env::args().nth(1).unwrap_or_default();
     let r = match which.as_str() {
@@ -1508,6 +1523,7 @@ fn main() {
         "default_mass" => default_mass(),
         "matrix_dense_model" => matrix_dense_model(),
         "lu_small" => lu_small(),
+        "naccpt_equals_intervals" => naccpt_equals_intervals(),
         "sol_many_range" => sol_many_range(),
         "step_count_law" => step_count_law(),
         "bdf_rescaling_accuracy" => bdf_rescaling_accuracy(),
